@@ -64,19 +64,27 @@ func (d *filesDir) ReadDir(n int) ([]fs.DirEntry, error) {
 		names = append(names, name)
 	}
 	sort.Strings(names)
+	if d.n < len(names) {
+		names = names[d.n:]
+	} else {
+		names = nil
+	}
 	if n > 0 {
-		if len(names) <= d.n {
+		if len(names) == 0 {
 			return nil, io.EOF
 		}
-		names = names[d.n:]
 		if len(names) > n {
 			names = names[:n]
 		}
-		d.n += len(names)
 	}
+	d.n += len(names)
 	entries := make([]fs.DirEntry, len(names))
 	for i, name := range names {
-		entries[i] = &filesDirEntry{filesFileInfo{name: name}}
+		if hasDir[name] {
+			entries[i] = &filesDirEntry{filesFileInfo{name: name, mode: fs.ModeDir}}
+		} else {
+			entries[i] = &filesDirEntry{filesFileInfo{name: name, data: d.fsys[name]}}
+		}
 	}
 	return entries, nil
 }
